@@ -2,6 +2,7 @@ package checks
 
 import (
 	"fmt"
+	"sort"
 	"strings"
 
 	"kverif/internal/smt"
@@ -171,7 +172,16 @@ func checkC08(c *Ctx) error {
 			// final state: the caller acts no more (a cancellation, if any, happened before the return)
 			v, m := ic.Query(true, r.X, e.PsiTerm(), fmt.Sprintf("(=> cancelled (< T_cancel %s))", r.C), smt.Or(parked...))
 			if v == smt.Sat {
-				ic.report(map[string]string{"kind": "parked-goroutine", "parked-at": blockedSummary(ic, m), "main-returned-at": r.Ev.Site}, m, "leak")
+				// did a goroutine's failure cancel the group context in this execution?
+				groupCancelled := "false"
+				for g := 1; g < e.Threads; g++ {
+					for _, rt := range e.Rets[g] {
+						if rt.Ev.Err != "Nil" && m[rt.X] == "true" {
+							groupCancelled = "true"
+						}
+					}
+				}
+				ic.report(map[string]string{"kind": "parked-goroutine", "parked-at": blockedSummary(ic, m), "main-returned-at": r.Ev.Site, "group-ctx-cancelled": groupCancelled, "caller-cancelled": m["cancelled"]}, m, "leak")
 			} else if v == smt.Unknown {
 				c.Inconclusive("leak query unknown for " + ic.Name())
 			}
@@ -238,7 +248,8 @@ func checkC05(c *Ctx) error {
 			v, _ := ic.Query(false, append(env, ts...)...)
 			ic.Sol.Pop()
 			if v == smt.Unsat {
-				ic.report(map[string]string{"kind": "no-overlap", "count": fmt.Sprint(len(Z))}, map[string]string{}, "nooverlap")
+				sort.Strings(Z)
+				ic.report(map[string]string{"kind": "no-overlap", "count": fmt.Sprint(len(Z)), "_barrier": strings.Join(Z, ",")}, map[string]string{}, "nooverlap")
 			} else if v == smt.Unknown {
 				c.Inconclusive("overlap query unknown for " + ic.Name())
 			}
@@ -254,7 +265,7 @@ func checkC05(c *Ctx) error {
 				c.mu.Unlock()
 				v, _ := ic.Query(false, append(env, occ[a], occ[b], fmt.Sprintf("(< %s %s)", enter[a], exit[b]))...)
 				if v == smt.Unsat {
-					ic.report(map[string]string{"kind": "ordered-after-async", "other-has-inputs": fmt.Sprint(!ic.Ref.NoInputs[b])}, map[string]string{}, "ordered-"+a+"-"+b)
+					ic.report(map[string]string{"kind": "ordered-after-async", "other-has-inputs": fmt.Sprint(!ic.Ref.NoInputs[b]), "_barrier": b + "," + a}, map[string]string{}, "ordered-"+a+"-"+b)
 				} else if v == smt.Unknown {
 					c.Inconclusive("ordering query unknown for " + ic.Name())
 				}
